@@ -48,6 +48,7 @@ protected:
     return true;
   }
   inline void impl_destroy_sandbox() { region_size[slot] = 0; region_base[slot] = 0; destroyed++; }
+  inline void impl_reset_sandbox() {}
 
   template<typename T>
   inline void* impl_get_unsandboxed_pointer(T_PointerType p) const
